@@ -67,6 +67,9 @@ def ensure_dirs():
 REWRITES = [
     ("internal/nginx/manager.go", r'nginxBinaryPath(\s*)= "/usr/sbin/nginx"',
      lambda m: 'nginxBinaryPath%s= "%s"' % (m.group(1), os.path.join(FAKEBIN, "nginx")), 1),
+    # the C02 admission harness lives in package main of the controller so that the real
+    # createGlobalConfigurationValidator() (reserved-port wiring) runs; the original entry point is renamed
+    ("cmd/nginx-ingress/main.go", r'(?m)^func main\(\) \{', 'func verifOriginalMain() {', 1),
 ]
 
 
@@ -379,7 +382,10 @@ def load_known():
         for line in open(p):
             line = line.strip()
             if line and not line.startswith("#"):
-                out.append(json.loads(line))
+                try:
+                    out.append(json.loads(line))
+                except ValueError as e:
+                    print("warning: %s: unreadable known-finding line ignored (%s)" % (os.path.basename(p), e), file=sys.stderr)
     return out
 
 
